@@ -10,7 +10,7 @@ import random as _global_random
 import warnings
 from xml.sax.saxutils import escape, quoteattr
 
-from .core import Suite, cN, cbool, clist, ctuple, import_rdflib
+from .core import Suite, cN, cbool, clist, copt, ctuple, import_rdflib
 
 rdflib = import_rdflib()
 warnings.filterwarnings("ignore", category=DeprecationWarning)
@@ -454,7 +454,36 @@ def run_docs(case, hook=None):
         _global_random.setstate(state)
 
 
+def malformed(fmt, prefix, rest, variant=0, anon=()):
+    """A document that is well-formed up to and including the statements [prefix], then broken
+    (in a way that fails before any further blank-node label is read), then - where the syntax can
+    carry on after the broken place - the well-formed statements [rest]."""
+    if fmt in ("nt", "nquads"):
+        return (write_doc(fmt, prefix) + "@@@ this is not a statement .\n" + write_doc(fmt, rest))
+    if fmt == "hext":
+        return write_doc(fmt, prefix) + '["http://e/a", "http://e/p", \n' + write_doc(fmt, rest)
+    if fmt in ("turtle", "trig"):
+        more = write_doc(fmt, rest, variant).replace("@prefix e: <http://e/> .\n", "")
+        return write_doc(fmt, prefix, variant, anon) + "e:a e:p .\n" + more
+    if fmt == "xml":
+        text = write_doc(fmt, prefix, variant)
+        return text.replace("</rdf:RDF>\n", '<rdf:Description rdf:about="http://e/a"><e:p>')
+    if fmt == "trix":
+        text = write_doc(fmt, prefix, variant)
+        return text.replace("</TriX>\n", "<graph><uri>urn:g:1</uri><triple><uri>http://e/a</uri>")
+    if fmt == "json-ld":
+        assert not prefix, "a malformed JSON-LD document adds nothing"
+        return write_doc(fmt, rest or [[1, 3, 2, 0]], variant)[:-1]
+    raise ValueError(fmt)
+
+
 def _run_docs(case, hook=None):
+    from io import StringIO
+
+    from rdflib.parser import create_input_source
+    from rdflib.plugins.parsers.nquads import NQuadsParser
+    from rdflib.plugins.parsers.ntriples import NTGraphSink, W3CNTriplesParser
+
     reseed = case.get("reseed")
     store = Memory()
     ds = Dataset(store=store)
@@ -473,26 +502,55 @@ def _run_docs(case, hook=None):
     pid = plain.identifier if plain is not None else None
     obs = []
     tags = {}
+    contexts = {}   # the caller's bnode_context dicts
+    objects = {}    # long-lived parser objects
     for j, d in enumerate(case["docs"]):
-        text = write_doc(d["fmt"], d["stmts"], d.get("variant", 0), d.get("anon", ()))
+        fmt = d["fmt"]
+        if d.get("fail") is not None:
+            text = malformed(fmt, d["stmts"], d["fail"].get("rest", []), d.get("variant", 0), d.get("anon", ()))
+        else:
+            text = write_doc(fmt, d["stmts"], d.get("variant", 0), d.get("anon", ()))
         tgt = d["target"]
+        kwargs = {}
+        if d.get("ctx") is not None:
+            kwargs["bnode_context"] = contexts.setdefault(d["ctx"], {})
+        if d.get("keep"):
+            kwargs["preserve_bnode_ids"] = True
+        if d.get("pub") is not None:
+            kwargs["publicID"] = d["pub"]
+        raised = False
         try:
             if reseed is not None:
                 _global_random.seed(reseed)
-            if tgt == 0:
-                ds.parse(data=text, format=d["fmt"])
+            if d.get("obj") is not None:
+                # direct use of a parser object that outlives the call
+                sink = ds.default_context if tgt == 0 else plain if tgt == PLAIN else ds.graph(graph_term(tgt))
+                kwargs.pop("publicID", None)
+                if fmt == "nt":
+                    po = objects.get(("nt", d["obj"]))
+                    if po is None:
+                        po = objects[("nt", d["obj"])] = W3CNTriplesParser(NTGraphSink(sink))
+                    else:
+                        po.sink = NTGraphSink(sink)
+                    po.parse(StringIO(text), **kwargs)
+                elif fmt == "nquads":
+                    po = objects.get(("nquads", d["obj"]))
+                    if po is None:
+                        po = objects[("nquads", d["obj"])] = NQuadsParser()
+                    po.parse(create_input_source(data=text), sink, **kwargs)
+                else:
+                    raise ValueError("parser objects are driven directly for nt and nquads only")
+            elif tgt == 0:
+                ds.parse(data=text, format=fmt, **kwargs)
             elif tgt == PLAIN:
-                plain.parse(data=text, format=d["fmt"])
+                plain.parse(data=text, format=fmt, **kwargs)
             else:
-                ds.graph(graph_term(tgt)).parse(data=text, format=d["fmt"])
+                ds.graph(graph_term(tgt)).parse(data=text, format=fmt, **kwargs)
         except Exception as e:  # noqa: BLE001
-            obs.append([[996, 996, 996, 996]])
+            raised = True
             if hook:
                 hook(j, e)
-            break
-        obs.append(snapshot(store, pid, tags))
-    while len(obs) < len(case["docs"]):
-        obs.append([[996, 996, 996, 996]])
+        obs.append([raised, snapshot(store, pid, tags)])
     return obs
 
 
@@ -560,7 +618,7 @@ class C12(Suite):
     name = "parse_merge"
     imports = "From RV Require Import Parse.Model."
     case_ty = "case"
-    obs_ty = "list qset"
+    obs_ty = "obs_t"
     kf = "kf"
     kf_ids = {1: "F9"}
     corr = ("Graph.parse / Dataset.parse with NTParser, NQuadsParser, TurtleParser, TrigParser, RDFXMLParser, "
@@ -570,7 +628,10 @@ class C12(Suite):
     timeout_s = 20.0
 
     # case = {"plain": bool, "init": [[s,p,o,g]...], "reseed": k (optional),
-    #         "docs": [{"fmt", "target", "variant", "anon": [labels written as [...]] (optional), "stmts": [[s,p,o,g]...]}]}
+    #         "docs": [{"fmt", "target", "variant", "stmts": [[s,p,o,g]...], and optionally
+    #                   "anon": [labels written as [...]], "ctx": k (bnode_context dict k), "obj": k (long-lived
+    #                   parser object k), "keep": True (preserve_bnode_ids), "pub": publicID,
+    #                   "fail": {"rest": [...]} (the document is broken after "stmts"; "rest" follows the break)}]}
     def gen(self, rng, i):
         plain = rng.random() < 0.2
         r = rng.random()
@@ -587,6 +648,9 @@ class C12(Suite):
         if numeric:
             labs = [5, 6][: rng.choice([1, 2, 2])] + rng.sample(range(5), rng.choice([1, 2]))
             fmts = ["turtle", "trig", "trig", rng.choice(fmts)]
+        sharing = (not numeric) and rng.random() < 0.18   # long-lived label dicts: bnode_context=, parser objects
+        if sharing:
+            fmts = ["nt", "nt", "nquads", "nquads", rng.choice(fmts)]
         subj_c, obj_c = [1, 2, 8], [1, 2, 5, 6, 7, 8]
         named = [1, 2, 3] + [100 + lab for lab in labs[:1]]
         init = []
@@ -626,11 +690,31 @@ class C12(Suite):
                     body.append([s, rng.choice(PREDS), o, rng.choice(graphs)])
                 if proto is None:
                     proto = [list(st) for st in body]
-            graphs = sorted({st[3] for st in body})
+            fail = None
+            if rng.random() < 0.1:
+                # the document breaks after the first k statements
+                k = 0 if fmt == "json-ld" else rng.randrange(len(body) + 1)
+                rest = [st for st in body[k:] if st[0] > 0 and st[2] > 0 and st[3] >= 0]
+                fail = {"rest": [] if fmt in ("xml", "trix") else rest}
+                body = body[:k]
+            graphs = sorted({st[3] for st in body}) or [0]
             stmts = list(body)
             for lab in doc_labels(body):
                 stmts.insert(rng.randrange(len(stmts) + 1), [-lab - 1, TAGP, tag_id(j, lab), rng.choice(graphs)])
             doc = {"fmt": fmt, "target": target, "variant": rng.randrange(8), "stmts": stmts}
+            if fail is not None:
+                doc["fail"] = fail
+            if fmt in ("nt", "nquads") and (sharing and rng.random() < 0.8 or rng.random() < 0.03):
+                r2 = rng.random()
+                if r2 < 0.6:
+                    doc["ctx"] = rng.choice([0, 0, 1])
+                if r2 > 0.4:
+                    doc["obj"] = rng.choice([0, 0, 2]) if fmt == "nt" else rng.choice([1, 1, 3])
+            if fmt in ("xml", "trix") and rng.random() < 0.12 and not (
+                    fmt == "xml" and any(lab in DIGIT_LABELS for lab in doc_labels(stmts))):
+                doc["keep"] = True
+            if "obj" not in doc and rng.random() < 0.15:
+                doc["pub"] = rng.choice(["http://pub.example/doc", "http://pub.example/dir/", "urn:pub:1"])
             if fmt in ("turtle", "trig") and (numeric or rng.random() < 0.3):
                 cand = [lab for lab in doc_labels(stmts) if numeric and lab not in DIGIT_LABELS or rng.random() < 0.5]
                 plan = anon_plan(stmts, cand)
@@ -646,18 +730,20 @@ class C12(Suite):
         return run_docs(case)
 
     def on_timeout(self, case):
-        return [[[995, 995, 995, 995]] for _ in case["docs"]]
+        return [[False, [[995, 995, 995, 995]]] for _ in case["docs"]]
 
     # ------------------------------------------------------------ Coq text
     def coq_case(self, case):
         docs = []
         for d in case["docs"]:
             stmts = clist(ctuple(c_dterm(s), cN(p), c_dterm(o), c_dgraph(g)) for s, p, o, g in d["stmts"])
-            docs.append("{| d_fmt := %s; d_target := %s; d_stmts := %s |}" % (COQ_FMT[d["fmt"]], cN(d["target"]), stmts))
+            docs.append("{| d_fmt := %s; d_target := %s; d_stmts := %s; d_obj := %s; d_ctx := %s; d_keep := %s; d_raised := %s |}"
+                        % (COQ_FMT[d["fmt"]], cN(d["target"]), stmts, copt(d.get("obj"), cN), copt(d.get("ctx"), cN),
+                           cbool(d.get("keep")), cbool(d.get("fail") is not None)))
         return "{| c_init := " + clist(c_quad(q) for q in case["init"]) + "; c_docs := " + clist(docs) + " |}"
 
     def coq_obs(self, obs):
-        return clist(clist(c_quad(q) for q in st) for st in obs)
+        return clist(ctuple(cbool(r), clist(c_quad(q) for q in st)) for r, st in obs)
 
     # ------------------------------------------------------------ statistics
     @staticmethod
@@ -693,6 +779,15 @@ class C12(Suite):
             f["mixed_syntaxes"] = 1
         if case.get("reseed") is not None:
             f["random_reseeded_before_each_call"] = 1
+        keys = [("ctx", d["ctx"]) if d.get("ctx") is not None else ("obj", d["obj"]) if d.get("obj") is not None else None
+                for d in case["docs"]]
+        for j, d in enumerate(case["docs"]):
+            for k in ("ctx", "obj", "keep", "fail", "pub"):
+                if d.get(k) is not None and d.get(k) is not False:
+                    f["call_with_" + k] = f.get("call_with_" + k, 0) + 1
+            if keys[j] is not None and keys[j] in keys[:j] and set(doc_labels(d["stmts"])) & {
+                    lab for i in range(j) if keys[i] == keys[j] for lab in doc_labels(case["docs"][i]["stmts"])}:
+                f["label_shared_through_long_lived_dict"] = f.get("label_shared_through_long_lived_dict", 0) + 1
         for d in case["docs"]:
             labs = doc_labels(d["stmts"])
             if d.get("anon"):
@@ -717,9 +812,12 @@ class C12(Suite):
                     yield retag(dict(case, docs=docs[:i] + [nd] + docs[i + 1:]))
             if d.get("variant"):
                 yield dict(case, docs=docs[:i] + [dict(d, variant=0)] + docs[i + 1:])
-            if d.get("anon"):
-                nd = {k: v for k, v in d.items() if k != "anon"}
-                yield dict(case, docs=docs[:i] + [nd] + docs[i + 1:])
+            for opt in ("anon", "pub", "ctx", "obj", "keep"):
+                if d.get(opt) is not None and d.get(opt) is not False:
+                    nd = {k: v for k, v in d.items() if k != opt}
+                    yield dict(case, docs=docs[:i] + [nd] + docs[i + 1:])
+            if d.get("fail") is not None and d["fail"].get("rest"):
+                yield dict(case, docs=docs[:i] + [dict(d, fail={"rest": []})] + docs[i + 1:])
         if case.get("reseed") is not None:
             yield {k: v for k, v in case.items() if k != "reseed"}
 
@@ -744,20 +842,41 @@ class C12(Suite):
                         yield {"plain": False, "init": init, "docs": docs}
 
 
-SUITES = [C12()]
+class C12Machines(C12):
+    """The same cases and the same observations of rdflib against the explicit-supply state machines of
+    coq/Parse/Machines.v (uuid4 draws, N3 sink counter, long-lived dicts), renamed by tags."""
+    name = "machines"
+    imports = "From RV Require Import Parse.Model Parse.Machines."
+    model = "machine_obs"
+    quick_n = 500
+    thorough_n = 8000
+
+    def sweep(self):
+        return []
+
+
+SUITES = [C12(), C12Machines()]
 
 TRUSTED = [
     "Coq 8.16.1 kernel and the vm_compute evaluator",
-    "the document writers of harness/c12.py (abstract statement list -> nt/nquads/turtle/trig/xml/trix/json-ld/hext text)",
+    "the document writers of harness/c12.py (abstract statement list -> nt/nquads/turtle/trig/xml/trix/json-ld/hext text, "
+    "incl. the malformed variants: a broken line / statement / unclosed element / truncated JSON after the listed statements)",
     "the snapshot of harness/c12.py: store content read through Store.triples, blank nodes recognised by id (labels) or by the tag triple they carry",
+    "the driver of harness/c12.py: Graph.parse / Dataset.parse with bnode_context=, preserve_bnode_ids=, publicID=, and the direct use of "
+    "long-lived W3CNTriplesParser / NQuadsParser objects",
     "the Python standard library XML/JSON readers used by the parsers",
 ]
 ASSUMPTIONS = [
-    "BNode() / uuid4 never returns an id twice and never an id already in the store (the [fresh] hypotheses of Parse/Proofs.v)",
+    "BNode() / uuid4 never returns an id twice and never an id already in the store (the [fresh] hypotheses of Parse/Proofs.v; "
+    "in Parse/MachineProofs.v: distinct (uuid number, counter) pairs give distinct ids - hypothesis nid_inj, instance std_nid)",
     "every blank-node label of a document also occurs as subject of one tag statement (documents of the suite are written that way); labels that occur in no statement position do not exist in these syntaxes",
-    "TriX documents of the suite name every graph (an unnamed TriX graph is stored under a new blank-node name: C06)",
-    "which parser follows which label discipline (Parse/Model.v disc_of) is read off the code and re-established by every run of this check",
+    "TriX documents of the suite name every graph (an unnamed TriX graph is stored under a new blank-node name: C06-F17)",
+    "which parser follows which label discipline (Parse/Model.v disc_of, Parse/Machines.v alloc_of) is read off the code and re-established by every run of this check (suites parse_merge and machines)",
+    "a malformed document of the suite breaks at a place where no further blank-node label has been read; a malformed JSON-LD document is malformed JSON (nothing is added: the model is given no statements for it)",
+    "N3 formulas { ... } (labels scoped to the formula) and collections ( ... ) are not written by the suite",
 ]
-RULE = ("a case is an initial store content plus 1-4 documents (syntax, target graph, statements over 1-4 labels out of 7 - all-digit labels included, Turtle/TriG labels optionally written as anonymous [...] nodes, RDF/XML with inner xml:base, optionally random.seed(k) before every call, "
-        "labels shaped like rdflib ids included) parsed one after the other; distinct by full content; non-trivial when a label "
+RULE = ("a case is an initial store content plus 1-4 parse calls (syntax, target graph, statements over 1-4 labels out of 7 - all-digit "
+        "labels included, Turtle/TriG labels optionally written as anonymous [...] nodes, RDF/XML with inner xml:base; options: "
+        "bnode_context= dict shared between calls, long-lived parser object, preserve_bnode_ids, publicID, document broken after k statements, "
+        "random.seed(k) before every call) made one after the other; distinct by full content; non-trivial when a label "
         "is shared by two calls or equals the id of a blank node already in the store")
